@@ -31,7 +31,7 @@ Proof.
   - intros [n|z|b|bs|xs|fs] H; cbn [has_tyb] in H; try discriminate. cbn [has_ty]. apply andb_true_iff in H. destruct H as [H1 H2].
     split; [lia|]. clear H1. induction xs as [|x xs IHl]; [exact I|]. apply andb_true_iff in H2. destruct H2 as [Hx Hr].
     split; [|apply IHl; exact Hr]. destruct x; try discriminate. apply N.ltb_lt. exact Hx.
-  - intros sk fs IH [n|z|b|bs|xs|vs] H; cbn [has_tyb] in H; try discriminate. cbn [has_ty]. apply IH. exact H.
+  - intros sk accs fs IH [n|z|b|bs|xs|vs] H; cbn [has_tyb] in H; try discriminate. cbn [has_ty]. apply IH. exact H.
   - intros sk [|? ?] H; cbn [fields_tyb] in H; try discriminate. exact I.
   - intros k p t IHt r IHr sk [|v vs] H; cbn [fields_tyb] in H; try discriminate. cbn [fields_ty].
     apply andb_true_iff in H. destruct H as [H Hr]. apply andb_true_iff in H. destruct H as [Hk Hv].
